@@ -31,6 +31,15 @@ CHECKS = {
  "C11": dict(cat="exploration", sec="4 C11", tech="round-trip and differential monitor of the real parsers against an independent writer/reader (runtime monitoring)",
    text="Bodies from an independent writer (old sizes incl. 0, 2^k+-1, 2^64-1; 0-64 hashes of 1-64 bytes; checkpoint bytes incl. blank lines, CR, non-UTF-8, none) must parse to exactly what was written; bodies of the three unambiguous malformed classes must be refused; Proof.Marshal/Unmarshal round-trips every generated list incl. empty; bodies posted by the repository's own writer (cmd/feedbastion, captured through an overlaid in-package test) parse back; a differential sweep of mutated bodies is judged against a reference reader where its verdict is definite.",
    note="Open variants (leading zeros, several spaces/tab, CRLF, >4 KiB lines) are only judged by the weak oracle."),
+ "C12": dict(cat="exploration", sec="4 C12", tech="alone-vs-interleaved differential replay of recorded histories; ID observation at every interface (runtime monitoring)",
+   text="Isolation: per-log hostile histories recorded while each log runs alone are replayed in PRNG interleavings on one shared real witness (2-5 logs, shared keys, all stores); verdict sequences and final stored bytes must be identical and no ID may hold a checkpoint of another origin after any step. Identity: for generated origins (1-200 bytes, spaces, slashes, unicode, trailing spaces) the ID is observed at AsLogMap, config.NewLog, the bastion handler (recording witness), the distributor PUT path, the HTTP read API and a feeder's witness calls and must equal hex(SHA-256('o:'+origin)); configurations with a duplicated origin must make omniwitness.Main return an error with zero Accept calls on its listener.",
+   note="Legacy witness signatures are deterministic; cosignature/v1 runs compare after removing timestamped lines."),
+ "C15": dict(cat="exploration", sec="4 C15", tech="request monitor at a stub distributor + stub witness, exhaustive answer-pair enumeration (runtime monitoring / fault enumeration)",
+   text="The real DistributeOnce runs against a stub witness and a stub distributor: all 10 x 8 (witness answer, distributor answer) pairs for single logs and PRNG-drawn sets of 1-6 logs. Every request reaching the stub is judged: PUT, path names hex(SHA-256('o:'+origin)) and the escaped witness key name, body byte-identical to the witness's answer and verifying under log key/origin and witness key by kit/refnote; logs whose answer is not valid produce no request; every log is still looked up; the overall error is non-nil iff at least one log failed.",
+   note="307->200 is executed, not judged. Checkpoints are cosigned by the harness's own signer."),
+ "C16": dict(cat="exploration", sec="4 C16", tech="read-API monitor comparing HTTP responses and the bundled client with the in-process state after every step (runtime monitoring)",
+   text="After every request of generated histories over 1-4 logs (all stores) every configured ID is fetched through the real gorilla router and through the bundled client/http: 200 + exact stored bytes or 404 / os.ErrNotExist; the decoded log list must equal the set of IDs with an accepted update (a refused first submission creates no entry); unknown hex IDs and syntactically odd IDs must give 404 and never a stored checkpoint.",
+   note="In-memory round-tripper instead of a socket."),
 }
 
 NOT_YET = "check not built yet in this session (planned, see DESIGN.md section 4)"
